@@ -255,10 +255,13 @@ fn run_inner(case: &Case, wall: &Rc<Cell<u64>>) -> Outcome {
                             Stamp::of(remote),
                             Stamp::of(clock)
                         );
+                        // accepting a remote stamp that is already behind the clock need not move the clock (the statement
+                        // asks for strict growth of what is ISSUED, and for the clock to end up beyond the accepted stamp);
+                        // it must never move it back
                         ensure!(
-                            clock > before && (clock > high || high_is_initial),
+                            clock >= before && (clock >= high || high_is_initial),
                             "not-increasing",
-                            "step {i}: after recv the clock {:?} is not greater than {:?}",
+                            "step {i}: after recv the clock {:?} is behind {:?}",
                             Stamp::of(clock),
                             Stamp::of(high)
                         );
